@@ -485,6 +485,51 @@ def single_edits(toks, vocab, rng, cap=None):
             yield kind, i, toks[:i] + [toks[i + 1], toks[i]] + toks[i + 2:]
 
 
+def targeted_edits(toks, rng):
+    """One edit per rejection class the statement names that single random token edits
+    rarely hit: else/elsif placement in every scope (including first in a nested block,
+    after a non-if sibling, after another else), block after an action, semicolon after a
+    block command, empty lists, doubled commas."""
+    n = len(toks)
+    starts = [0] + [i + 1 for i, t in enumerate(toks) if t in (b";", b"{", b"}") and i + 1 <= n]
+    out = []
+    for i in starts:
+        out.append(("ins-else-block", i, toks[:i] + [b"else", b"{", b"}"] + toks[i:]))
+        out.append(("ins-elsif-block", i,
+                    toks[:i] + [b"elsif", b"true", b"{", b"keep", b";", b"}"] + toks[i:]))
+        out.append(("ins-if-else-else", i,
+                    toks[:i] + [b"if", b"true", b"{", b"}", b"else", b"{", b"}", b"else",
+                                b"{", b"}"] + toks[i:]))
+    for i, t in enumerate(toks):
+        if t == b"if":
+            out.append(("if->elsif", i, toks[:i] + [b"elsif"] + toks[i + 1:]))
+        if t == b";":
+            out.append(("semicolon->block", i, toks[:i] + [b"{", b"}"] + toks[i + 1:]))
+        if t == b"{":
+            # the block of a control replaced by a semicolon
+            depth, j = 0, i
+            while j < n:
+                if toks[j] == b"{":
+                    depth += 1
+                elif toks[j] == b"}":
+                    depth -= 1
+                    if depth == 0:
+                        break
+                j += 1
+            if j < n:
+                out.append(("block->semicolon", i, toks[:i] + [b";"] + toks[j + 1:]))
+        if t == b"[":
+            j = toks.index(b"]", i)
+            out.append(("empty-list", i, toks[:i + 1] + toks[j:]))
+        if t == b",":
+            out.append(("double-comma", i, toks[:i] + [b",", b","] + toks[i + 1:]))
+        if t == b"(":
+            out.append(("empty-testlist", i, toks[:i + 1] + [b")"] + toks[i + 1:]))
+    if len(out) > 80:
+        out = rng.sample(out, 80)
+    return out
+
+
 # ---------------------------------------------------------------------------
 # W-BYTES
 # ---------------------------------------------------------------------------
